@@ -159,3 +159,74 @@ __CPROVER_assigns(__CPROVER_object_whole(ret))
 __CPROVER_ensures(cv_exc_pending == 0 && OWN_PTR(ret) == this_->_owner && gh_allocs == __CPROVER_old(gh_allocs))    /* the resumed waiter owns exactly the awaited mutex */
 ;
 #endif
+
+/* ---- the two resume functors handed to unlock<Fn> (their bodies; unlock's own units treat them as abstract callees that must be called
+ * exactly once with the head of the private queue): "each waiting coroutine is resumed exactly once" ends here -
+ * release(): the new owner's resumption result is merged into the suspend point that release() returns (nothing runs inside);
+ * ownership destruction: the new owner is resumed and the returned suspend point is run (destroyed) at once. */
+#if defined(CV_HAS_lam_rel) || defined(CV_HAS_lam_del)
+int gh_lr_res_calls, gh_lr_spd_calls; AWT *gh_lr_res_arg; cv_i32 gh_lr_cf; cv_i8 *gh_lr_h; cv_i32 gh_lr_spd_cf; cv_i8 *gh_lr_spd_h;
+#ifdef CV_HAS_lr_resume_stub
+void lr_resume_stub(SP *out, AWT *a) { gh_lr_res_calls++; gh_lr_res_arg = a; out->_count_flag = gh_lr_cf; out->f0.f0._handles[0] = gh_lr_h; }
+#endif
+#ifdef CV_HAS_lr_sp_dtor_stub
+void lr_sp_dtor_stub(SP *p) { gh_lr_spd_calls++; gh_lr_spd_cf = p->_count_flag; gh_lr_spd_h = p->f0.f0._handles[0]; }
+#endif
+#endif
+#ifdef CV_HAS_lam_rel
+#define LR_RET(c) (*(SP **)(c))            /* the closure holds one reference: &ret */
+/* suspend_point::operator<<(suspend_point&&) is an abstract callee here (its behaviour - position-wise append, source emptied - is C06's) */
+int gh_mg_calls; SP *gh_mg_this; cv_i32 gh_mg_cf; cv_i8 *gh_mg_h;
+#ifdef CV_HAS_lr_merge_stub
+SP *lr_merge_stub(SP *this_, SP *other) { gh_mg_calls++; gh_mg_this = this_; gh_mg_cf = other->_count_flag; gh_mg_h = other->f0.f0._handles[0]; other->_count_flag = 0; return this_; }
+#endif
+void lam_rel(LAMRELC *this_, AWT *awt)
+__CPROVER_requires(cv_exc_pending == 0 && gh_lr_res_calls == 0 && gh_lr_spd_calls == 0 && gh_mg_calls == 0 && (gh_lr_cf == 0 || gh_lr_cf == 2) && (gh_lr_cf == 2 ==> gh_lr_h != 0))
+__CPROVER_requires(__CPROVER_is_fresh(this_, sizeof(*this_)) && __CPROVER_is_fresh(LR_RET(this_), sizeof(SP)) && __CPROVER_is_fresh(awt, sizeof(*awt)))
+__CPROVER_assigns(gh_lr_res_calls, gh_lr_res_arg, gh_lr_spd_calls, gh_lr_spd_cf, gh_lr_spd_h, gh_mg_calls, gh_mg_this, gh_mg_cf, gh_mg_h)
+__CPROVER_ensures(cv_exc_pending == 0 && gh_lr_res_calls == 1 && gh_lr_res_arg == awt)                                   /* the granted request is resumed exactly once ... */
+__CPROVER_ensures(gh_mg_calls == 1 && gh_mg_this == LR_RET(this_) && gh_mg_cf == gh_lr_cf && (gh_lr_cf == 2 ==> gh_mg_h == gh_lr_h))   /* ... and exactly what that returned is merged, once, into release()'s result: nothing runs here */
+__CPROVER_ensures(gh_lr_spd_calls <= 1 && (gh_lr_spd_calls == 1 ==> gh_lr_spd_cf == 0))                                  /* the emptied temporary resumes nothing */
+__CPROVER_ensures(gh_allocs == __CPROVER_old(gh_allocs))
+;
+void h_lam_rel(void) { LAMRELC *c; AWT *a; lam_rel(c, a); __CPROVER_assert(0, "SENTINEL reachable"); }
+#endif
+#ifdef CV_HAS_lam_del
+void lam_del(LAMDELC *this_, AWT *awt)
+__CPROVER_requires(cv_exc_pending == 0 && gh_lr_res_calls == 0 && gh_lr_spd_calls == 0 && (gh_lr_cf == 0 || gh_lr_cf == 2) && (gh_lr_cf == 2 ==> gh_lr_h != 0))
+__CPROVER_requires(__CPROVER_is_fresh(awt, sizeof(*awt)))
+__CPROVER_assigns(gh_lr_res_calls, gh_lr_res_arg, gh_lr_spd_calls, gh_lr_spd_cf, gh_lr_spd_h)
+__CPROVER_ensures(cv_exc_pending == 0 && gh_lr_res_calls == 1 && gh_lr_res_arg == awt)                                   /* the granted request is resumed exactly once ... */
+__CPROVER_ensures(gh_lr_spd_calls == 1 && gh_lr_spd_cf == gh_lr_cf && (gh_lr_cf == 2 ==> gh_lr_spd_h == gh_lr_h))        /* ... and what it returned is run (destroyed) exactly once, untouched */
+__CPROVER_ensures(gh_allocs == __CPROVER_old(gh_allocs))
+;
+void h_lam_del(void) { LAMDELC *c; AWT *a; lam_del(c, a); __CPROVER_assert(0, "SENTINEL reachable"); }
+#endif
+
+/* ---- blocking lock: co_awaiter<mutex>::sync() (used by lock().wait() and ownership(co_awaiter&&)): one try-lock; only when it fails a stack
+ * awaiter whose resume function is sync_awaiter::wakeup is registered - complete BEFORE it is published - and the thread blocks on that
+ * awaiter's flag iff the registration says "wait" (subscribe returned true); if subscribe reports that the mutex was obtained, nobody waits. */
+#ifdef CV_HAS_mxaw_sync
+int gh_s_ready_calls, gh_s_sub_calls, gh_s_wait_calls; MX *gh_s_mx; AWT *gh_s_aw; void *gh_s_fn_at_sub, *gh_s_flag; cv_i1 gh_s_ready_res, gh_s_sub_res; cv_i8 gh_s_wait_old; cv_i32 gh_s_wait_ord;
+#ifdef CV_HAS_s_ready_stub
+cv_i1 s_ready_stub(MX *m) { gh_s_ready_calls++; gh_s_mx = m; return gh_s_ready_res; }
+#endif
+#ifdef CV_HAS_s_subscribe_stub
+cv_i1 s_subscribe_stub(MX *m, AWT *a) { gh_s_sub_calls++; __CPROVER_assert(m == gh_s_mx, "request registered on the mutex that was tried"); gh_s_aw = a; gh_s_fn_at_sub = (void *)a->_resume_fn; return gh_s_sub_res; }
+#endif
+#ifdef CV_HAS_s_wait_stub
+void s_wait_stub(void *flag, cv_i8 old, cv_i32 order) { gh_s_wait_calls++; gh_s_wait_old = old; gh_s_wait_ord = order;
+  __CPROVER_assert(gh_s_sub_calls == 1 && old == 0 && __CPROVER_same_object(flag, gh_s_aw) && __CPROVER_POINTER_OFFSET(flag) >= __CPROVER_POINTER_OFFSET(gh_s_aw) && __CPROVER_POINTER_OFFSET(flag) < __CPROVER_POINTER_OFFSET(gh_s_aw) + sizeof(SYNCAW),
+                   "the thread blocks on the flag of the very awaiter it registered, until that flag is set"); }
+#endif
+void mxaw_sync(MXAW *this_)
+__CPROVER_requires(cv_exc_pending == 0 && gh_s_ready_calls == 0 && gh_s_sub_calls == 0 && gh_s_wait_calls == 0 && gh_s_ready_res <= 1 && gh_s_sub_res <= 1 && __CPROVER_is_fresh(this_, sizeof(*this_)))
+__CPROVER_assigns(gh_s_ready_calls, gh_s_sub_calls, gh_s_wait_calls, gh_s_mx, gh_s_aw, gh_s_fn_at_sub, gh_s_flag, gh_s_wait_old, gh_s_wait_ord)
+__CPROVER_ensures(cv_exc_pending == 0 && gh_s_ready_calls == 1 && gh_s_mx == this_->_owner)                       /* exactly one try-lock on the awaited mutex */
+__CPROVER_ensures(gh_s_sub_calls == (gh_s_ready_res ? 0 : 1))                                                       /* a request only when the try-lock failed */
+__CPROVER_ensures(gh_s_sub_calls == 1 ==> gh_s_fn_at_sub == (void *)sa_wakeup_fn)                                   /* the stack awaiter wakes THIS thread; complete before publication */
+__CPROVER_ensures(gh_s_wait_calls == ((gh_s_sub_calls == 1 && gh_s_sub_res) ? 1 : 0))                               /* blocks iff the request was queued ... */
+__CPROVER_ensures(gh_allocs == __CPROVER_old(gh_allocs))
+;
+void h_mxaw_sync(void) { MXAW *a; mxaw_sync(a); __CPROVER_assert(0, "SENTINEL reachable"); }
+#endif
